@@ -574,7 +574,7 @@ func (s *Sched) inspect(idle time.Duration) *Hang {
 		h.Reason = "the bubble was not found in the goroutine dump"
 		return h
 	}
-	if fmt.Sprint(summary(g1)) != fmt.Sprint(summary(g2)) {
+	if fmt.Sprint(ids(g1)) != fmt.Sprint(ids(g2)) || fmt.Sprint(summary(g1)) != fmt.Sprint(summary(g2)) {
 		h.Reason = "goroutine states still changing"
 		return h
 	}
@@ -582,7 +582,13 @@ func (s *Sched) inspect(idle time.Duration) *Hang {
 	h.Deadlock = true
 	for _, g := range g2 {
 		if g.ID == drv {
-			continue // the driver sits in synctest.Wait or in its tick sleep; it is the one that is stuck waiting
+			// the driver must be the one that is stuck waiting for the others (synctest.Wait, or its tick sleep
+			// that cannot end while some goroutine is not durably blocked)
+			if g.State != "synctest.Wait" && g.State != "sleep" {
+				h.Deadlock = false
+				h.Reason = fmt.Sprintf("the driver is in state %q: not stuck", g.State)
+			}
+			continue
 		}
 		switch g.State {
 		case "chan receive", "chan send", "chan receive (nil chan)", "chan send (nil chan)",
@@ -590,13 +596,15 @@ func (s *Sched) inspect(idle time.Duration) *Hang {
 		case "sync.Mutex.Lock", "sync.RWMutex.Lock", "sync.RWMutex.RLock", "semacquire":
 			h.Mutex = true
 		case "select", "select (no cases)":
-			if !s.opt.SelectIsChanWait {
+			if !s.opt.SelectIsChanWait && h.Deadlock {
 				h.Deadlock = false
 				h.Reason = fmt.Sprintf("goroutine %d is in a select (may contain a timer): inconclusive", g.ID)
 			}
 		default:
+			if h.Deadlock {
+				h.Reason = fmt.Sprintf("goroutine %d is in state %q: not a channel or mutex wait", g.ID, g.State)
+			}
 			h.Deadlock = false
-			h.Reason = fmt.Sprintf("goroutine %d is in state %q: not a channel or mutex wait", g.ID, g.State)
 		}
 	}
 	if h.Deadlock {
@@ -605,10 +613,19 @@ func (s *Sched) inspect(idle time.Duration) *Hang {
 	return h
 }
 
+func ids(gs []GInfo) []int64 {
+	var out []int64
+	for _, g := range gs {
+		out = append(out, g.ID)
+	}
+	sort.Slice(out, func(i, j int) bool { return out[i] < out[j] })
+	return out
+}
+
 func summary(gs []GInfo) []string {
 	var out []string
 	for _, g := range gs {
-		out = append(out, fmt.Sprintf("%d[%s] %s", g.ID, g.State, g.Top))
+		out = append(out, fmt.Sprintf("[%s] %s", g.State, g.Top))
 	}
 	sort.Strings(out)
 	return out
